@@ -12,7 +12,7 @@ from symgeo import refgeo as R
 
 EVIDENCE = {
     "functions": ["base.TensorDiagram.add_node/add_edge/calculate/copy", "base.Tensor.__mul__/__rmul__/__pow__/tensor_product", "base.LeviCivitaTensor", "base.KroneckerDelta"],
-    "bounds": "diagrams with <= 3 node objects of rank <= 3 (index dimension 2; 3 for rank <= 2), every covariant/contravariant pattern, edge sequences of length <= 4 "
+    "bounds": "diagrams with <= 3 node objects of rank <= 3 (index dimension 2; 3 for rank <= 2; seven hand-written structures whose nodes have indices of different dimensions), contractions of epsilon(n) with itself for n <= 6 (constants), every covariant/contravariant pattern, edge sequences of length <= 4 "
               "including repeated edges between one pair, loops (an edge from a node to itself) and re-use of one node object; all array entries free reals; "
               "one collection axis on one node (thorough: both); epsilon(n) for n <= 4 (5 thorough), delta(n,p) for n <= 4, p <= 3 and both construction orders, "
               "index tuples symbolic (z3 Int) against a lookup table built by the real constructors",
@@ -134,6 +134,14 @@ def gen_structures(seed, n):
         {"nodes": [((2, 2, 2), (0,)), ((2, 2), (0, 1))], "edges": [(1, 0), (1, 0)]},
         {"nodes": [((2, 2), (0,)), ((2, 2), (1,))], "edges": [(0, 1)]},
         {"nodes": [((3, 3), (0,)), ((3, 3), (0, 1)), ((3,), ())], "edges": [(1, 0), (1, 2)]},
+        # nodes whose indices have DIFFERENT dimensions (the dimension check must compare the two paired indices, not the last axes)
+        {"nodes": [((2, 3), (0,)), ((2,), ())], "edges": [(0, 1)]},                        # valid: cov index (dim 2) with a contravariant 2-vector
+        {"nodes": [((2, 3), (0,)), ((3,), (0,))], "edges": [(1, 0)]},                      # valid: covariant 3-vector with the contravariant index (dim 3)
+        {"nodes": [((2, 3), (0,)), ((3,), ())], "edges": [(0, 1)]},                        # mismatch 2 / 3 -> error
+        {"nodes": [((2, 3), (0,)), ((2,), (0,))], "edges": [(1, 0)]},                      # mismatch 2 / 3 -> error
+        {"nodes": [((2, 3), (0,)), ((3, 2), (0,))], "edges": [(0, 1), (1, 0)]},            # trace of a 2x3 . 3x2 product
+        {"nodes": [((3, 2), (0, 1)), ((3, 2), ())], "edges": [(0, 1), (0, 1)]},            # full contraction A_{ij} B^{ij}
+        {"nodes": [((2, 3, 2), (0, 1)), ((3,), ()), ((2,), ())], "edges": [(0, 2), (0, 1)]},
     ]
     out += base
     while len(out) < n:
@@ -294,8 +302,36 @@ def custom_eps_delta(tier, seed):
     return res
 
 
+def custom_eps_contractions(tier, seed):
+    """concrete (no free values: the tensors are constants): diagrams that contract epsilon(n) with itself.  Full contraction = n!, contraction over
+    n-1 index pairs = (n-1)! * delta -- evaluated through TensorDiagram.calculate for every size up to 6 (integer dtype of the tables matters here)"""
+    import math
+    from geometer.base import LeviCivitaTensor, TensorDiagram
+    t0 = time.time()
+    res = {"paths": 0, "forks": 0, "obligations": 0, "ob_total": 0, "violations": [], "inconclusive": [], "samples": [], "by_step": {"evaluated": 0},
+           "outcomes": {}, "reach": {}, "validated": 0, "solver_time": 0.0}
+    for n in range(2, 7):
+        e1, e2 = LeviCivitaTensor(n), LeviCivitaTensor(n, False)
+        for k, name in ((n, "full-contraction=n!"), (n - 1, "contraction-over-n-1-pairs=(n-1)!*delta")):
+            res["ob_total"] += 1
+            res["obligations"] += 1
+            res["by_step"]["evaluated"] += 1
+            res["paths"] += 1
+            try:
+                r = np.asarray(TensorDiagram(*[(e1, e2) for _ in range(k)]).calculate().array)
+                ref = np.array(math.factorial(n)) if k == n else math.factorial(n - 1) * np.eye(n, dtype=int)
+                ok = r.shape == ref.shape and bool(np.all(r.astype(object) == ref.astype(object)))
+            except Exception as ex:
+                ok = False
+            if not ok:
+                ob = f"eps({n}):{name}"
+                res["violations"].append({"case": "eps_contractions", "obligation": ob, "env": {"n": str(n)}, "replay": {"failed": [ob]}})
+    res["wall"] = time.time() - t0
+    return res
+
+
 def cases(tier, seed):
-    cs = [Case("eps_delta_tables", custom_eps_delta, kind="custom"), Case("operators", case_operators)]
+    cs = [Case("eps_delta_tables", custom_eps_delta, kind="custom"), Case("eps_contractions", custom_eps_contractions, kind="custom"), Case("operators", case_operators)]
     n = 60 if tier == "quick" else 600
     for i, spec in enumerate(gen_structures(seed, n)):
         cs.append(Case(f"diagram_{i:03d}", mk_structure(spec)))
